@@ -18,7 +18,7 @@ LEVEL = "exploration"
 RUNS = {"quick": 5000, "thorough": 80000}
 WALL = {"quick": 150, "thorough": 1500}
 RULE = (
-    "one run = one seeded history of 1-6 operations over {parse_args, parse_object (dict / Namespace), parse_string, parse_env, "
+    "one run = one seeded history of 1-6 operations over {parse_args (also with namespace= and defaults=False), parse_object (dict / Namespace / with cfg_base), parse_string, parse_env, "
     "parse_path, validate, dump, save, merge_config, strip_unknown, instantiate_classes, get_defaults, format_help, "
     "instantiate_twice} with accepted and rejected inputs, each judged by deep snapshot before/after; one operation per run is "
     "re-executed from a forked copy of the state with a fault at each of its seam calls; distinct = distinct (op-kind sequence, "
@@ -34,7 +34,7 @@ ASSUMPTIONS = [
 PROBES = ["arg-with-nested-container", "op-failed", "op-moved-cwd", "sweep-site", "fault-fired", "instantiate-twice-objects", "chdir-restore-with-exception-in-flight", "ctor-aborted"]
 ANCHOR_FILES = ("_core", "_namespace", "_typehints", "_util", "_common")
 NO_SHRINK = ("parser/opts", "parser/opts/*", "world", "world/*")
-SHRINK_DICTS = ("ops/*/obj", "ops/*/env")
+SHRINK_DICTS = ("ops/*/obj", "ops/*/env", "ops/*/base", "ops/*/ns")
 
 FEATS = ["l", "ll", "d", "dl", "t", "st", "tl", "x", "n", "p", "inner", "dd", "dg", "obj", "objs", "holder", "model", "pr"]
 
@@ -74,7 +74,7 @@ def parser_spec(feats, eoe):
     if "dg" in feats:
         A.append({"k": "class", "cls": "D", "name": "dg"})
     if "obj" in feats:
-        arg("obj", "opt_base", {"__lazy__": "Sub1", "kw": {"n": 2}})
+        arg("obj", "opt_base", {"__lazy__": "Sub1", "kw": {"n": 2, "opts": {"a": 2.0}}})
     if "objs" in feats:
         arg("objs", "list_base", [])
     if "holder" in feats:
@@ -102,7 +102,7 @@ OBJ = {
     "inner": [{"inner": {"v": [1, 2]}}, {"inner": "A/B/inner.yaml"}, {"inner": "A/B/innerbad.yaml"}],
     "dd": [{"dd": {"u": "2", "w": [1]}}, {"dd": {"u": "x"}}],
     "dg": [{"dg": {"w": [3, 4]}}],
-    "obj": [{"obj": SUB1}, {"obj": {"class_path": "os.path"}}, {"obj": {"class_path": "dsim.simtypes.Sub2", "init_args": {"path": "A/pa.txt"}}}],
+    "obj": [{"obj": SUB1}, {"obj": {"class_path": "dsim.simtypes.Base"}}, {"obj": "dsim.simtypes.Base"}, {"obj": {"class_path": "os.path"}}, {"obj": {"class_path": "dsim.simtypes.Sub2", "init_args": {"path": "A/pa.txt"}}}],
     "objs": [{"objs": [{"class_path": "dsim.simtypes.Base", "init_args": {"tags": [1]}}]}, {"objs": [SUB1, SUB1]}],
     "holder": [{"holder": {"class_path": "dsim.simtypes.Holder"}}, {"holder": {"class_path": "dsim.simtypes.Holder", "init_args": {"inner": {"class_path": "dsim.simtypes.Base", "init_args": {"tags": [2]}}}}}],
     "model": [{"model": {"base": {"class_path": "dsim.simtypes.Sub1", "init_args": {"opts": {"a": 3}}}}}, {"model": {"name": "q"}}],
@@ -121,7 +121,7 @@ ARGV = {
     "model": [["--model.base=Sub1"]],
     "p": [["--p=A/pa.txt"]],
 }
-KINDS = ["parse_object", "parse_object", "parse_object_ns", "parse_args", "parse_string", "parse_env", "parse_path", "validate", "dump", "save", "merge", "strip", "inst", "defaults", "help", "inst2"]
+KINDS = ["parse_object", "parse_object", "parse_object_ns", "parse_object_base", "parse_args", "parse_args_ns", "parse_args_nodefaults", "parse_string", "parse_env", "parse_path", "validate", "dump", "save", "merge", "strip", "inst", "defaults", "help", "inst2"]
 
 
 def _pick(rng, table, feats):
@@ -148,8 +148,13 @@ def gen_op(rng, feats):
     op = {"kind": kind}
     if kind in ("parse_object", "parse_object_ns"):
         op["obj"] = gen_obj(rng, feats)
-    elif kind == "parse_args":
+    elif kind == "parse_object_base":
+        op["obj"] = gen_obj(rng, feats)
+        op["base"] = gen_obj(rng, feats)
+    elif kind in ("parse_args", "parse_args_ns", "parse_args_nodefaults"):
         op["argv"] = gen_argv(rng, feats)
+        if kind == "parse_args_ns":
+            op["ns"] = gen_obj(rng, feats)
     elif kind == "parse_string":
         o = gen_obj(rng, [f for f in feats if f not in ("t", "st", "tl", "x")])
         op["text"] = json.dumps(o) if rng.random() < 0.9 else "a: [1\n"
@@ -234,8 +239,12 @@ def prepare(p, op):
         return {"cfg_obj": realise(op["obj"])}
     if k == "parse_object_ns":
         return {"cfg_obj": Namespace(realise(op["obj"]))}
-    if k == "parse_args":
+    if k == "parse_object_base":
+        return {"cfg_obj": realise(op["obj"]), "cfg_base": Namespace(realise(op["base"]))}
+    if k in ("parse_args", "parse_args_nodefaults"):
         return {"args": list(op["argv"])}
+    if k == "parse_args_ns":
+        return {"args": list(op["argv"]), "namespace": Namespace(realise(op["ns"]))}
     if k == "parse_string":
         return {"cfg_str": op["text"]}
     if k == "parse_env":
@@ -264,8 +273,14 @@ def call(p, op, args):
     k = op["kind"]
     if k in ("parse_object", "parse_object_ns"):
         return p.parse_object(args["cfg_obj"])
+    if k == "parse_object_base":
+        return p.parse_object(args["cfg_obj"], cfg_base=args["cfg_base"])
     if k == "parse_args":
         return p.parse_args(args["args"])
+    if k == "parse_args_ns":
+        return p.parse_args(args["args"], namespace=args["namespace"])
+    if k == "parse_args_nodefaults":
+        return p.parse_args(args["args"], defaults=False)
     if k == "parse_string":
         return p.parse_string(args["cfg_str"])
     if k == "parse_env":
